@@ -5,6 +5,7 @@ import (
 	"math/rand/v2"
 	"net/netip"
 	"os"
+	"runtime/debug"
 	"sort"
 	"strings"
 	"sync"
@@ -267,6 +268,13 @@ func runPlan(p *plan, workDir string) (out outcome) {
 			out.setupErr = err
 			return
 		}
+		if p.ClientProto == "socks5" {
+			spec.ClientNetwork = "ip4" // bound addresses given by name must resolve to IPv4
+			if p.ClientAuth {
+				spec.ClientUser, spec.ClientPass = "harness-user", "harness-pass"
+				x.up.RequireAuth(spec.ClientUser, spec.ClientPass)
+			}
+		}
 		spec.ClientEndpoint = x.up.Addr.String()
 		if p.EndpointByName {
 			spec.ClientEndpoint = fmt.Sprintf("%s:%d", x.nameUp, x.up.Addr.Port())
@@ -315,6 +323,8 @@ func runPlan(p *plan, workDir string) (out outcome) {
 	nExtra := 0
 	for _, ph := range p.Phases {
 		switch ph.Kind {
+		case phLateFail:
+			nExtra += ph.N
 		case phBlockInit, phReject, phFailInit, phPackFail:
 			nExtra += ph.N
 		}
@@ -467,6 +477,148 @@ func runPlan(p *plan, workDir string) (out outcome) {
 				x.label("keepalive-held")
 			} else {
 				x.label("keepalive-gaps-too-long")
+			}
+		case phGapKeep:
+			// Single datagrams with a fixed gap per session (20..90 % of the NAT timeout), four gaps, so every
+			// uplink batch is one packet and every extension of the idle deadline matters; then the
+			// destination sends one more reply half a NAT timeout after the session's last datagram.
+			// Relay-side gap bound as in keepAlive: echo(k+1) - send(k); a session is judged only while
+			// that bound stayed below the NAT timeout.
+			x.stopStreams()
+			x.stopFloods()
+			x.settled = false
+			type gres struct {
+				judged    bool
+				ports     map[uint16]bool
+				lateOK    bool
+				lateTried bool
+				maxGap    time.Duration
+			}
+			res := make([]gres, len(x.main))
+			var gwg sync.WaitGroup
+			for i, c := range x.main {
+				d := x.mainDest[i]
+				frac := gapFractions[i%len(gapFractions)]
+				gap := T * time.Duration(frac) / 100
+				gwg.Go(func() {
+					r := &res[i]
+					r.ports = map[uint16]bool{}
+					sent := time.Now()
+					seq, ok, _ := c.Paced(d, 16, T/4, 1)
+					if !ok {
+						return
+					}
+					if a, ok := x.w.Last(c.ID); ok {
+						r.ports[a.From.Port()] = true
+					}
+					r.judged = true
+					for k := 0; k < 4; k++ {
+						time.Sleep(time.Until(sent.Add(gap)))
+						next := time.Now()
+						seq, ok, _ = c.Paced(d, 16, T/10, 1)
+						if g := time.Since(sent); g > r.maxGap {
+							r.maxGap = g
+						}
+						if !ok || r.maxGap >= T-3*time.Millisecond {
+							r.judged = false // the harness cannot show that the relay-side gap was below the timeout
+							return
+						}
+						sent = next
+						if a, ok := x.w.Last(c.ID); ok {
+							r.ports[a.From.Port()] = true
+						}
+					}
+					// a reply that arrives 0.5 T after the last client datagram: the session is still there
+					time.Sleep(time.Until(sent.Add(T / 2)))
+					before := c.ReplyCount(seq)
+					r.lateTried = true
+					x.w.Flood(c.ID, 1, 0, nil)
+					r.lateOK = udpsvc.WaitFor(T/4, func() bool { return c.ReplyCount(seq) > before })
+				})
+			}
+			gwg.Wait()
+			x.established = true
+			for i, r := range res {
+				frac := gapFractions[i%len(gapFractions)]
+				if !r.judged {
+					x.label("keepalive-gap-unjudged:" + fracName(frac))
+					continue
+				}
+				if len(r.ports) > 1 {
+					x.miss("active-session-evicted", fmt.Sprintf("session %d sent single datagrams %d %% of natTimeout %v apart (relay-side gap at most %v), yet the destination saw %d relay sockets",
+						i, frac, T, r.maxGap.Round(time.Millisecond), len(r.ports)))
+					continue
+				}
+				if r.lateTried && !r.lateOK {
+					x.miss("reply-within-timeout-not-relayed", fmt.Sprintf("session %d (gaps %d %% of natTimeout %v): a reply sent by the destination %v after the session's last datagram did not reach the client", i, frac, T, T/2))
+					continue
+				}
+				x.label("keepalive-gap:" + fracName(frac) + ":" + p.BatchMode)
+			}
+		case phLateFail:
+			if p.ClientProto != "socks5" {
+				x.label("phase-skipped:lateFail")
+				break
+			}
+			// everything idle first, so that the socket level is exact
+			x.stopStreams()
+			x.stopFloods()
+			if !udpsvc.WaitFor(T+slackFor(T), func() bool { return x.sockets() <= x.sIdle }) {
+				x.miss("idle-session-not-evicted", fmt.Sprintf("before the late-failure phase: %d sockets, idle level %d (natTimeout %v)", x.sockets(), x.sIdle, T))
+				break
+			}
+			x.established = false
+			x.settled = false
+			udpsvc.WaitFor(2*time.Second, func() bool { _, o := x.up.ControlConns(); return o == 0 })
+			acc0, open0 := x.up.ControlConns()
+			nameBound := fmt.Sprintf("bound-%x-%d.c12.test", x.w.Scenario, pi)
+			sc := &udpsvc.AssocScript{Mode: ph.Variant}
+			switch ph.Variant {
+			case "bound-domain-unresolvable":
+				sc = &udpsvc.AssocScript{Mode: "bound-domain", BoundName: nameBound} // unknown name: NXDOMAIN
+			case "bound-domain-wrong-family":
+				udpsvc.SetName(nameBound, udpsvc.NameRule{IP: netip.IPv6Loopback()}) // AAAA only; the client resolves "ip4"
+				defer udpsvc.DelName(nameBound)
+				sc = &udpsvc.AssocScript{Mode: "bound-domain", BoundName: nameBound}
+			}
+			x.up.SetAssocScript(sc)
+			// finalizers would close a leaked connection at some later garbage collection: keep the collector
+			// out of the observation window so that "released" means released by the code
+			gcOld := debug.SetGCPercent(-1)
+			datagrams := 0
+			for k := 0; k < ph.N; k++ {
+				c := x.nextExtra()
+				for j := 0; j < 2; j++ { // every datagram is a new attempt (a failed initialisation leaves no entry)
+					c.Send(c.NextSeq(), x.dIP[0], 16)
+					datagrams++
+					time.Sleep(15 * time.Millisecond)
+				}
+			}
+			auth := "noauth"
+			if p.ClientAuth {
+				auth = "auth"
+			}
+			attempted := udpsvc.WaitFor(time.Second, func() bool { a, _ := x.up.ControlConns(); return a-acc0 >= int64(ph.N) })
+			wait := 2 * time.Second
+			if ph.Variant == "close-after-reply" {
+				wait = T + slackFor(T) // the association succeeded; its UDP socket lives until the idle timeout
+			}
+			released := udpsvc.WaitFor(wait, func() bool { _, o := x.up.ControlConns(); return o <= open0 && x.sockets() <= x.sIdle })
+			debug.SetGCPercent(gcOld)
+			x.up.SetAssocScript(nil)
+			acc1, open1 := x.up.ControlConns()
+			switch {
+			case !attempted:
+				x.label("late-fail-not-attempted")
+			case p.ClientAuth && x.up.AuthOK() == 0:
+				x.label("late-fail-auth-not-exercised")
+			case !released:
+				x.miss("failed-session-init-holds-resources", fmt.Sprintf("socks5-%s client, upstream scripted %q: %d datagrams caused %d control connections; %v later %d of them are still open on the relay's side and the process has %d sockets (idle level %d)",
+					auth, ph.Variant, datagrams, acc1-acc0, wait, open1-open0, x.sockets(), x.sIdle))
+			default:
+				short := map[string]string{"bound-domain-unresolvable": "assoc-bound-domain-unresolvable", "bound-domain-wrong-family": "assoc-bound-domain-wrong-family",
+					"reply-failure": "assoc-reply-failure", "close-after-reply": "upstream-closes-after-reply"}[ph.Variant]
+				x.label("socks5-" + auth + "/" + short + "/control-conn-closed")
 			}
 		case phRefused:
 			if tunnel {
@@ -853,6 +1005,11 @@ func runPlan(p *plan, workDir string) (out outcome) {
 	}
 	out.sample = map[string]any{"class": p.class(), "stopMs": D.Milliseconds(), "evictions": x.evictions, "arrivals": len(w.Arrivals())}
 	return
+}
+
+// fracName renders a percentage of the NAT timeout as "0.55T", "0.7T".
+func fracName(pct int) string {
+	return strings.TrimRight(fmt.Sprintf("0.%02d", pct), "0") + "T"
 }
 
 // slackFor is the scheduling allowance on top of the NAT timeout: 3 s plus a tenth of the timeout. The
